@@ -763,12 +763,87 @@ func c13BoolHelperEstablishes(h *ssa.Function, idx int, bind map[ssa.Value]int64
 		if cv, isConst := a.Val.(*ssa.Const); isConst && cv.Value != nil && cv.Value.Kind() == constant.Bool && !constant.BoolVal(cv.Value) {
 			continue
 		}
-		if c13AtomReach(h.Blocks[0], 0, a, ct) {
+		// a returned condition (`return err == nil`): when it is true, every If on the same condition took its
+		// true edge — paths over the false edges of such Ifs cannot end in this return with a true value
+		ct2 := newCut()
+		for k := range ct.instrs {
+			ct2.instrs[k] = true
+		}
+		for k := range ct.edges {
+			ct2.edges[k] = true
+		}
+		ct2.Edges(c13EdgesExcludedBy(h, a.Val, true)...)
+		if c13AtomReach(h.Blocks[0], 0, a, ct2) {
 			ok = false
 		}
 	}
 	c13SummaryMemo[key] = ok
 	return ok
+}
+
+// c13SameCond: two boolean values denote the same condition (same comparison
+// of the same operands); neg = they are negations of each other.
+func c13SameCond(a, b ssa.Value) (same, neg bool) {
+	for {
+		u, ok := a.(*ssa.UnOp)
+		if !ok || u.Op != token.NOT {
+			break
+		}
+		a, neg = u.X, !neg
+	}
+	for {
+		u, ok := b.(*ssa.UnOp)
+		if !ok || u.Op != token.NOT {
+			break
+		}
+		b, neg = u.X, !neg
+	}
+	if a == b {
+		return true, neg
+	}
+	x, ok1 := a.(*ssa.BinOp)
+	y, ok2 := b.(*ssa.BinOp)
+	if !ok1 || !ok2 {
+		return false, false
+	}
+	sameOps := (x.X == y.X && x.Y == y.Y) || ((x.Op == token.EQL || x.Op == token.NEQ) && x.X == y.Y && x.Y == y.X)
+	if !sameOps {
+		// constants are distinct SSA values: compare them by value
+		cx, okx := x.Y.(*ssa.Const)
+		cy, oky := y.Y.(*ssa.Const)
+		if !(x.X == y.X && okx && oky && ((cx.Value == nil && cy.Value == nil) || (cx.Value != nil && cy.Value != nil && constant.Compare(cx.Value, token.EQL, cy.Value)))) {
+			return false, false
+		}
+	}
+	switch {
+	case x.Op == y.Op:
+		return true, neg
+	case (x.Op == token.EQL && y.Op == token.NEQ) || (x.Op == token.NEQ && y.Op == token.EQL):
+		return true, !neg
+	}
+	return false, false
+}
+
+// c13EdgesExcludedBy: the If edges of fn that cannot have been taken when
+// the boolean value v has the given truth value.
+func c13EdgesExcludedBy(fn *ssa.Function, v ssa.Value, truth bool) []Edge {
+	var out []Edge
+	if _, isConst := v.(*ssa.Const); isConst {
+		return nil
+	}
+	for _, i := range Ifs(fn) {
+		cond, t, f := ifEdges(i)
+		same, neg := c13SameCond(v, cond)
+		if !same {
+			continue
+		}
+		if truth != neg { // cond is true: its false edge is excluded
+			out = append(out, f)
+		} else {
+			out = append(out, t)
+		}
+	}
+	return out
 }
 
 // c13VoidHelperEstablishes: every return of the procedure h passes the fact
